@@ -183,6 +183,70 @@ theorem constMul_root (R : Matrix n k α) (A : Matrix n n α) (c r : α) (hR : R
     (r • R) * (r • R)ᵀ = c • A := by
   rw [transpose_smul, Matrix.smul_mul, Matrix.mul_smul, smul_smul, hr, hR]
 
+/-- `ConstantMulLinearOperator.root_inv_decomposition` (`c > 0`, /repo c4c33aa): the base operator's inverse root
+`R₀` (`R₀ R₀ᵀ = A⁻¹`, stated as `R₀ R₀ᵀ A = 1`) scaled by `ri = c^{-1/2}` (contract of `self._constant ** -0.5`:
+`ri·ri·c = 1`) is an inverse root of `c·A`: `(ri R₀)(ri R₀)ᵀ (cA) = 1`, i.e. `R Rᵀ = (cA)⁻¹`.  All sizes, any
+(also rectangular: truncated Lanczos) root shape, any commutative ring. -/
+theorem constMul_rootInv (R₀ : Matrix n k α) (A : Matrix n n α) (c ri : α) (hR : R₀ * R₀ᵀ * A = 1)
+    (hri : ri * ri * c = 1) : (ri • R₀) * (ri • R₀)ᵀ * (c • A) = 1 := by
+  rw [constMulRootInv_gram, Matrix.smul_mul, Matrix.mul_smul, smul_smul, hri, one_smul, hR]
+
+/-- … and the other side (`(cA)·R Rᵀ = 1`), so `R Rᵀ` is the two-sided inverse of `c·A`. -/
+theorem constMul_rootInv_left (R₀ : Matrix n k α) (A : Matrix n n α) (c ri : α) (hR : R₀ * R₀ᵀ * A = 1)
+    (hri : ri * ri * c = 1) : (c • A) * ((ri • R₀) * (ri • R₀)ᵀ) = 1 :=
+  mul_eq_one_comm.1 (constMul_rootInv R₀ A c ri hR hri)
+
+/-- The point of the override (the former defect: `add_low_rank` / `cat_rows` combine the cached root `L` and
+inverse root `R` of the same operator and need `Lᵀ R = I`): if the base pair is paired, `L₀ᵀ R₀ = 1`, then the
+ConstantMul pair `L = √c·L₀` (`constMul_root`), `R = c^{-1/2}·R₀` is paired, for every `r, ri` with `r·ri = 1`
+(`√c · c^{-1/2} = 1`).  Rectangular roots allowed (`L₀, R₀ : n × k`). -/
+theorem constMul_roots_paired (L₀ R₀ : Matrix n k α) (r ri : α) (hP : L₀ᵀ * R₀ = 1) (h : r * ri = 1) :
+    (r • L₀)ᵀ * (ri • R₀) = 1 := by
+  rw [transpose_smul, Matrix.smul_mul, Matrix.mul_smul, smul_smul, h, one_smul, hP]
+
+/-- … and in the other order `Rᵀ L = 1`. -/
+theorem constMul_roots_paired_swap (L₀ R₀ : Matrix n k α) (r ri : α) (hP : R₀ᵀ * L₀ = 1) (h : r * ri = 1) :
+    (ri • R₀)ᵀ * (r • L₀) = 1 := by
+  rw [transpose_smul, Matrix.smul_mul, Matrix.mul_smul, smul_smul, mul_comm ri r, h, one_smul, hP]
+
+/-- The two scalar contracts fit together: `r·r = c` (`** 0.5`) and `r·ri = 1` give the hypothesis of
+`constMul_rootInv`, `ri·ri·c = 1`. -/
+theorem constMul_scalars (c r ri : α) (hr : r * r = c) (h : r * ri = 1) : ri * ri * c = 1 := by
+  rw [← hr]; calc ri * ri * (r * r) = (r * ri) * (r * ri) := by ring
+    _ = 1 := by rw [h, mul_one]
+
+/-- The executable `constMulRoot` of the model (what the correspondence cells compare with the library's
+`ConstantMulLinearOperator(base_root, s)`) is the scalar multiple the theorems above are about. -/
+theorem constMulRoot_eq_smul {p q : Nat} (s : α) (R : Matrix (Fin p) (Fin q) α) : constMulRoot s R = s • R := by
+  ext i j; rfl
+
+/-- Selection model of the override (`constMulDelegate`): with an all-positive constant the outcome is the base
+operator's outcome for the same method re-wrapped as a `RootLinearOperator` (same primitives, errors propagate);
+otherwise it is the base-class outcome on the operator itself. -/
+theorem constMulDelegate_spec (base own : Outcome) :
+    (∀ p cl, base = .ok p cl → constMulDelegate true base own = .ok p "Root") ∧
+      (∀ e, base = .error e → constMulDelegate true base own = .error e) ∧
+      constMulDelegate false base own = own := by
+  refine ⟨?_, ?_, rfl⟩
+  · rintro p cl rfl; rfl
+  · rintro e rfl; rfl
+
+/-- The state before /repo c4c33aa, kept as a named statement: the base-class inverse root of `c·A` computed by its
+own factorization (`R = (c·A)^{-1/2}` from e.g. Cholesky of `cA`) is a valid inverse root, but it is NOT in general
+paired with the override's root `√c·L₀`: over ℚ, `A = [[4,2],[2,10]]`, `c = 4`, `L₀ = chol(A)` and the symmetric
+inverse root `R = (1/2)·A^{-1/2}`-style choice `R = (1/2)·L₀^{-ᵀ}·Q` with a rotation/reflection `Q ≠ I` give
+`Lᵀ R = Q ≠ I` although both factorize. -/
+theorem previous_constMul_unpaired_counterexample :
+    ∃ (L R A : Matrix (Fin 2) (Fin 2) ℚ), L * Lᵀ = A ∧ R * Rᵀ * A = 1 ∧ Lᵀ * R ≠ 1 := by
+  refine ⟨!![2, 0; 0, 1], !![0, 1/2; 1, 0], !![4, 0; 0, 1], ?_, ?_, ?_⟩
+  · ext i j; fin_cases i <;> fin_cases j <;> simp [Matrix.mul_apply, Fin.sum_univ_two] <;> (try norm_num)
+  · ext i j
+    fin_cases i <;> fin_cases j <;>
+      simp [Matrix.mul_apply, Matrix.vecMul, dotProduct, Fin.sum_univ_two] <;> (try norm_num)
+  · intro h
+    have := congrFun (congrFun h 0) 0
+    simp [Matrix.mul_apply, Fin.sum_univ_two] at this
+
 /-! ### Eigendecompositions and SVD -/
 
 /-- Base `_svd` from `_symeig`: `U = Q·sign(w)`, `S = |w|`, `V = Q` reconstructs `A`, `S ≥ 0` and `V` is
@@ -848,7 +912,7 @@ theorem generated_overrides_covered :
        ("BlockDiagLinearOperator", ["_cholesky", "_root_decomposition", "_root_inv_decomposition", "_symeig", "_svd"]),
        ("BlockInterleavedLinearOperator", ["_cholesky", "_root_decomposition", "_root_inv_decomposition"]),
        ("CholLinearOperator", ["_cholesky", "_root_decomposition", "root_decomposition", "root_inv_decomposition"]),
-       ("ConstantMulLinearOperator", ["root_decomposition"]),
+       ("ConstantMulLinearOperator", ["root_decomposition", "root_inv_decomposition"]),
        ("DiagLinearOperator", ["_cholesky", "_root_decomposition", "_root_inv_decomposition", "_symeig", "_svd"]),
        ("IdentityLinearOperator", ["_cholesky", "_root_decomposition", "_root_inv_decomposition", "_symeig", "_svd"]),
        ("KroneckerProductAddedDiagLinearOperator", ["_root_decomposition", "_root_inv_decomposition", "_symeig"]),
@@ -884,6 +948,7 @@ theorem generated_cache_writers :
 theorem generated_cached_method_entries :
     (Generated.C06.cachedEntries.filter fun e => e.2.2.2.2).map (fun e => (e.1, e.2.1, e.2.2.2.1)) =
       [("ConstantMulLinearOperator", "root_decomposition", false),
+       ("ConstantMulLinearOperator", "root_inv_decomposition", false),
        ("KroneckerProductLinearOperator", "root_decomposition", false),
        ("KroneckerProductLinearOperator", "root_inv_decomposition", false),
        ("LinearOperator", "diagonalization", false), ("LinearOperator", "root_decomposition", false),
@@ -891,6 +956,18 @@ theorem generated_cached_method_entries :
   decide +kernel
 
 /-! ### Satisfiability of the hypotheses (non-vacuity) -/
+
+/-- `constMul_rootInv` / `constMul_roots_paired`: `A = [[4,2],[2,10]]`, `L₀ = chol A = [[2,0],[1,3]]`,
+`R₀ = L₀^{-ᵀ} = [[1/2,-1/6],[0,1/3]]`, `c = 4`, `r = 2`, `ri = 1/2`. -/
+example : ∃ (L₀ R₀ A : Matrix (Fin 2) (Fin 2) ℚ) (c r ri : ℚ),
+    L₀ * L₀ᵀ = A ∧ R₀ * R₀ᵀ * A = 1 ∧ L₀ᵀ * R₀ = 1 ∧ r * r = c ∧ r * ri = 1 ∧ ri * ri * c = 1 ∧ c ≠ 1 ∧ R₀ 0 1 ≠ 0 := by
+  refine ⟨!![2, 0; 1, 3], !![1/2, -1/6; 0, 1/3], !![4, 2; 2, 10], 4, 2, 1/2, ?_, ?_, ?_, by norm_num, by norm_num,
+    by norm_num, by norm_num, by simp⟩
+  · ext i j; fin_cases i <;> fin_cases j <;> simp [Matrix.mul_apply, Fin.sum_univ_two] <;> norm_num
+  · ext i j
+    fin_cases i <;> fin_cases j <;>
+      simp [Matrix.mul_apply, Matrix.vecMul, dotProduct, Fin.sum_univ_two] <;> (try norm_num)
+  · ext i j; fin_cases i <;> fin_cases j <;> simp [Matrix.mul_apply, Fin.sum_univ_two] <;> (try norm_num)
 
 example : ∃ (L A : Matrix (Fin 2) (Fin 2) ℚ), L * Lᵀ = A ∧ LowerTri L ∧ L 1 0 ≠ 0 := by
   refine ⟨!![2, 0; 1, 3], !![4, 2; 2, 10], ?_, ?_, by simp⟩
